@@ -287,6 +287,7 @@ def run(ctx):
     # D11: the generated code never restores a state (MXCSR) it did not save in the same call: no emitted branch crosses one half
     # of a save/restore pair (shared with C10 D5)
     _il.import_module("rules.c10").emitted_branch_pairs(db, rep, "D11-NO-STALE-RESTORE")
+    two_operand_dest_defined(db, rep)
 
 
 def _codeptr_skips(f):
@@ -390,3 +391,208 @@ def d10_partial_load_cleared(db, rep, rule="D10-PARTIAL-LOAD-CLEARED"):
         raise AnalysisBroken("only %d insert-into-lane loads found in the sse/mmx rules" % n)
     return n
 
+
+
+# two-operand SSE/MMX forms whose destination is written without being read (Intel SDM operand legend "ModRM:reg (w)"); every
+# other two-operand vector instruction of orc_x86_opcodes is read-modify-write on its destination
+PURE_WRITERS = ("movdqa", "movdqu", "movq", "movd", "pabsb", "pabsw", "pabsd", "pmovsxbw", "pmovsxbd", "pmovsxbq", "pmovsxwd", "pmovsxwq", "pmovsxdq",
+                "pmovzxbw", "pmovzxbd", "pmovzxbq", "pmovzxwd", "pmovzxwq", "pmovzxdq", "phminposuw", "sqrtps", "sqrtpd", "cvttps2dq", "cvttpd2dq",
+                "cvtdq2ps", "cvtdq2pd", "cvtps2pd", "cvtpd2ps", "pshufd", "pshuflw", "pshufhw", "pshufw")
+SELF_DEFINING = ("pxor", "pcmpeqb", "pcmpeqw", "pcmpeqd", "pcmpeqq", "xorps", "xorpd", "psubb", "psubw", "psubd", "psubq", "pandn")
+
+
+def two_operand_dest_defined(db, rep, rule="D12-DEST-DEFINED"):
+    """The SSE and MMX rules are two-operand: `op src, dest` computes dest = dest op src.  The register allocator gives the
+    destination of an Orc instruction the register of its first source only when that source dies at the instruction; in every
+    other case (the source is used again later, or it is a constant / parameter held in a loop-invariant register) `dest` is a
+    register nobody has written.  A rule whose first instruction on `dest` is read-modify-write therefore has to copy the source
+    in first (`if (src != dest) movdqa src, dest`), or start with a form that only writes (mov*, pshuf*, pabs*, pmov?x*, cvt*,
+    sqrt*).  Otherwise the result contains whatever the register held: it changes with the surrounding program and with what ran
+    before.  Scratch registers (orc_compiler_get_temp_reg) are judged the same way."""
+    import re
+    from facts import init_rows
+    from flow import path_to
+    rows = init_rows(db.tu("orcx86insn").global_("orc_x86_opcodes"))
+
+    def key(e, kind):
+        e = strip_casts(e)
+        if e is None:
+            return None
+        if e.k == "DeclRefExpr" and e.name in kind:
+            return e.name
+        t = unparse(e).replace(" ", "")
+        m = re.search(r"vars\[insn->(dest|src)_args\[(\d)\]\]\.alloc$", t)
+        if m:
+            return "%s%s" % (m.group(1), m.group(2))
+        return None
+
+    n = judged = 0
+    for tub in ("orcrules-sse", "orcrules-mmx"):
+        tu = db.tu(tub)
+        for f in tu.main_functions():
+            if "_rule_" not in f.name:
+                continue
+            if re.search(r"_rule_acc|_rule_load|_rule_ldres|_rule_store", f.name):
+                continue            # accumulators read-modify-write their destination by definition; loads / stores are judged by D10 and C03
+            kind = {}
+            for vd in f.walk():
+                if vd.k == "VarDecl" and vd.c and vd.c[0] is not None:
+                    t = unparse(vd.c[0])
+                    if "dest_args" in t and t.rstrip().endswith(".alloc"):
+                        kind[vd.name] = "dest"
+                    elif "orc_compiler_get_temp_reg" in t:
+                        kind[vd.name] = "temp"
+                    elif "src_args" in t and t.rstrip().endswith(".alloc"):
+                        kind[vd.name] = "src"
+            kind.update({"dest0": "dest", "dest1": "dest", "src0": "src", "src1": "src", "src2": "src"})
+            calls = list({c.id: c for c in f.calls()}.values())
+            emits = [c for c in calls if c.name in ("orc_x86_emit_cpuinsn_size", "orc_x86_emit_cpuinsn_imm")]
+            if not emits:
+                continue
+            n += 1
+
+            def rowname(c):
+                v = strip_casts(c.args()[1]).v
+                return rows[v]["name"] if v is not None and 0 <= v < len(rows) else None
+
+            def defines(e, reg):
+                if e.k != "CallExpr" or not e.name:
+                    return False
+                a = e.args()
+                if e.name in ("orc_x86_emit_cpuinsn_size", "orc_x86_emit_cpuinsn_imm"):
+                    if key(a[4], kind) != reg:
+                        return False
+                    rn = rowname(e)
+                    return rn in PURE_WRITERS or (rn in SELF_DEFINING and key(a[3], kind) == reg)
+                # other emitters handed the register (memory loads, constant loads, mov helpers): taken as defining it
+                if "emit" in e.name or "load_constant" in e.name or "_mov_" in e.name:
+                    return any(key(x, kind) == reg for x in a)
+                return False
+
+            def same_edge(reg):
+                # prune the edge on which `reg` is known to BE a source register (src == dest): there it holds the source
+                def flt(b, idx):
+                    blk = f.blocks[b]
+                    if blk.cond is None or f.edge_kind(b, idx) not in (True, False):
+                        return True
+                    c = strip_casts(blk.cond)
+                    while c is not None and c.k == "ParenExpr":
+                        c = strip_casts(c.c[0])
+                    if c is None or c.k != "BinaryOperator" or c.op not in ("!=", "=="):
+                        return True
+                    l, r = key(c.c[0], kind), key(c.c[1], kind)
+                    if reg not in (l, r) or l is None or r is None:
+                        return True
+                    other = r if l == reg else l
+                    if kind.get(other) != "src":
+                        return True
+                    equal_edge = (c.op == "==") == f.edge_kind(b, idx)
+                    return not equal_edge
+                return flt
+            # `punpckl?? x, R ; psra?/psrl? $w, R` with w = the width of the unpacked element: the lanes R contributed are shifted
+            # out again (the sign/zero-extension idiom); R's earlier content does not reach the result and R is defined afterwards
+            HALF = {"punpcklbw": ("psraw", "psrlw", 8), "punpckhbw": ("psraw", "psrlw", 8), "punpcklwd": ("psrad", "psrld", 16),
+                    "punpckhwd": ("psrad", "psrld", 16), "punpckldq": ("psrlq", "psrlq", 32), "punpckhdq": ("psrlq", "psrlq", 32)}
+            absorbed = set()
+            for c in emits:
+                rn = rowname(c)
+                if rn not in HALF or c.name != "orc_x86_emit_cpuinsn_size":
+                    continue
+                reg = key(c.args()[4], kind)
+                pos = f.pos(c)
+                if reg is None or pos is None:
+                    continue
+                for e in f.blocks[pos[0]].el[pos[1] + 1:]:
+                    if e.k == "CallExpr" and e.name in ("orc_x86_emit_cpuinsn_size", "orc_x86_emit_cpuinsn_imm") and len(e.args()) > 4 and \
+                            (key(e.args()[4], kind) == reg or key(e.args()[3], kind) == reg):
+                        if e.name == "orc_x86_emit_cpuinsn_imm" and key(e.args()[4], kind) == reg and rowname(e) in HALF[rn][:2] and \
+                                strip_casts(e.args()[2]).v == HALF[rn][2]:
+                            absorbed.add(c.id)
+                        break
+            _defines0 = defines
+
+            def defines(e, reg, _d=_defines0):
+                if e.k == "CallExpr" and e.id in absorbed and key(e.args()[4], kind) == reg:
+                    return True
+                return _d(e, reg)
+
+            def norm_cond(cnd):
+                """(text, polarity) of an atomic comparison over the function's constant locals, or None"""
+                c = strip_casts(cnd)
+                while c is not None and c.k == "ParenExpr":
+                    c = strip_casts(c.c[0])
+                if c is None or c.k != "BinaryOperator" or c.op not in ("!=", "=="):
+                    return None
+                l, r = unparse(strip_casts(c.c[0])), unparse(strip_casts(c.c[1]))
+                if l > r:
+                    l, r = r, l
+                return ("%s==%s" % (l, r), c.op == "==")
+
+            def undefined_path(c, reg):
+                """a branch-consistent path from the entry to c on which nothing defines reg and reg is not known to be a source"""
+                tp = f.pos(c)
+                if tp is None:
+                    return None
+                flt = same_edge(reg)
+                seen = set()
+                stack = [(f.entry, ())]
+                while stack:
+                    b, facts = stack.pop()
+                    if (b, facts) in seen or len(seen) > 4000:
+                        continue
+                    seen.add((b, facts))
+                    blk = f.blocks[b]
+                    els = blk.el[:tp[1]] if b == tp[0] else blk.el
+                    if any(defines(e, reg) for e in els):
+                        continue
+                    if b == tp[0]:
+                        return facts
+                    for idx, s_ in enumerate(blk.succs):
+                        if s_ is None or not flt(b, idx):
+                            continue
+                        nf = facts
+                        ek = f.edge_kind(b, idx)
+                        if blk.cond is not None and ek in (True, False):
+                            nc = norm_cond(blk.cond)
+                            if nc is not None:
+                                val = nc[1] == ek
+                                d_ = dict(facts)
+                                if nc[0] in d_ and d_[nc[0]] != val:
+                                    continue            # contradicts a comparison already taken the other way on this path
+                                d_[nc[0]] = val
+                                nf = tuple(sorted(d_.items()))
+                        stack.append((s_, nf))
+                return None
+            bad = None
+            for c in emits:
+                a = c.args()
+                rn = rowname(c)
+                if rn is None:
+                    continue
+                reads = []
+                s, d = key(a[3], kind), key(a[4], kind)
+                if rn in SELF_DEFINING and s is not None and s == d:
+                    continue
+                if s is not None:
+                    reads.append(s)
+                if d is not None and rn not in PURE_WRITERS and c.id not in absorbed:
+                    reads.append(d)
+                for reg in reads:
+                    if kind.get(reg) not in ("dest", "temp"):
+                        continue
+                    judged += 1
+                    wit = undefined_path(c, reg)
+                    if wit is not None and bad is None:
+                        bad = (c, reg, rn)
+            rep.saw(f)
+            rep.check(bad is None, rule, where(f), f.name,
+                      "every destination / scratch register is written before an emitted instruction reads it",
+                      "%s emits `%s` with `%s` (the %s register) as a read-modify-write operand at line %s, and on a path where that register is not the "
+                      "first source's register nothing has written it before: the rule is right only when the register allocator chains the destination onto "
+                      "a source that dies here; with a source that is used again, a constant or a parameter, the result contains what the register held "
+                      "before - it depends on the surrounding program and on earlier runs" %
+                      (f.name, bad[2] if bad else "", bad[1] if bad else "", {"dest": "destination", "temp": "scratch"}.get(kind.get(bad[1]) if bad else "", ""),
+                       bad[0].line if bad else "?"), line=bad[0].line if bad else None)
+    if n < 150 or judged < 200:
+        raise AnalysisBroken("only %d two-operand rule functions / %d read operands judged" % (n, judged))
+    return n
